@@ -21,6 +21,7 @@ import (
 	"github.com/tikv/pd/server/config"
 	"github.com/tikv/pd/server/id"
 	"github.com/tikv/pd/server/member"
+	"github.com/tikv/pd/server/tso"
 	"go.etcd.io/etcd/clientv3"
 
 	"pdverif/internal/coqfmt"
@@ -745,6 +746,79 @@ func keepAliveAfterCloseProbe(R *res.Result) {
 	a.m.ResetLeader()
 }
 
+// tsoInFlightProbe: a timestamp request that is already inside getTS (it overflowed the logical part and sits in its
+// retry sleep) when the lease of the serving member runs out; the periodic update that ran while the lease was still
+// valid has reset the logical counter, so the retry can generate a timestamp. It must not be returned: the member's
+// lease is gone (another member may lead by then).
+func tsoInFlightProbe(R *res.Result) {
+	e, err := etcdx.StartOpt(50, 500)
+	if err != nil {
+		R.Notes = append(R.Notes, "tso-in-flight probe skipped: "+err.Error())
+		return
+	}
+	defer e.Close()
+	admin, _, err := e.NewClient()
+	if err != nil {
+		return
+	}
+	w := &world{e: e, admin: admin, root: "/c03/tsoflight", known: map[clientv3.LeaseID]bool{}, short: map[int]time.Time{}}
+	for i := 0; i < 2; i++ {
+		w.mems = append(w.mems, w.newMember(i))
+	}
+	a, b := w.mems[0], w.mems[1]
+	cfg := config.NewConfig()
+	cfg.TSOSaveInterval = typeutil.NewDuration(3 * time.Second)
+	cfg.TSOUpdatePhysicalInterval = typeutil.NewDuration(1500 * time.Millisecond) // = the retry sleep of getTS
+	am := tso.NewAllocatorManager(a.m, w.root, cfg, func() time.Duration { return 24 * time.Hour })
+	am.SetUpAllocator(context.Background(), tso.GlobalDCLocation, a.m.GetLeadership())
+	alloc, err := am.GetAllocator(tso.GlobalDCLocation)
+	if err != nil {
+		return
+	}
+	if err := a.m.CampaignLeader(1); err != nil { // 1 s lease, never renewed
+		return
+	}
+	t0 := time.Now()
+	if err := alloc.Initialize(0); err != nil {
+		return
+	}
+	defer am.ResetAllocatorGroup(tso.GlobalDCLocation)
+	if _, err := alloc.GenerateTSO(1<<18 - 10); err != nil {
+		return
+	}
+	type ans struct {
+		ts  pdpb.Timestamp
+		err error
+		at  time.Duration
+	}
+	done := make(chan ans, 1)
+	go func() {
+		ts, err := alloc.GenerateTSO(100) // overflows, sleeps 1.5 s, retries
+		done <- ans{ts, err, time.Since(t0)}
+	}()
+	time.Sleep(300 * time.Millisecond)
+	if err := alloc.UpdateTSO(); err != nil { // the lease is still valid: physical time advances, logical = 0
+		R.Notes = append(R.Notes, "tso-in-flight probe: update refused: "+err.Error())
+	}
+	// the lease runs out on etcd; another member wins
+	deadline := time.Now().Add(10 * time.Second)
+	bwon := false
+	for time.Now().Before(deadline) {
+		if err := b.m.CampaignLeader(60); err == nil {
+			bwon = true
+			break
+		}
+		time.Sleep(50 * time.Millisecond)
+	}
+	r := <-done
+	R.Count("tso-in-flight:probed")
+	if r.err == nil && r.at > time.Second {
+		R.Violate("C03:timestamp-granted-after-lease-expired:request-in-flight",
+			fmt.Sprintf("member 0 leads with a 1 s lease that is never renewed; a request overflowed the logical part and slept in its retry; %.2f s after the campaign (lease expired, member 1 campaigned: %v) it was answered (%d,%d)", r.at.Seconds(), bwon, r.ts.Physical, r.ts.Logical),
+			map[string]interface{}{"answered_after_s": r.at.Seconds(), "other_member_won": bwon, "timestamp": []int64{r.ts.Physical, r.ts.Logical}})
+	}
+}
+
 func main() {
 	seed := flag.Uint64("seed", 1, "")
 	n := flag.Int("n", 200, "number of generated cases")
@@ -806,6 +880,7 @@ func main() {
 	if *replay == "" {
 		revokeWindowProbe(R)
 		keepAliveAfterCloseProbe(R)
+		tsoInFlightProbe(R)
 	}
 	results := make([]*caseRec, len(jobs))
 	ch := make(chan job)
